@@ -167,7 +167,37 @@ func (g *exprGen) truePred(x nref) (string, bool) {
 		}
 		return "", false
 	}
-	switch r.Pick(6) {
+	switch r.Pick(8) {
+	case 6:
+		g.feat["text-children"] = true
+		n, t := 0, 0
+		for c := x.n.FirstChild; c != nil; c = c.NextSibling {
+			n++
+			if c.Type == xmlquery.TextNode {
+				t++
+			}
+		}
+		if r.Chance(0.5) {
+			return fmt.Sprintf("count(node())=%d", n), true
+		}
+		return fmt.Sprintf("count(text())=%d", t), true
+	case 7:
+		g.feat["text-children"] = true
+		if x.n.Type == xmlquery.ElementNode {
+			k := 0
+			for c := x.n.FirstChild; c != nil; c = c.NextSibling {
+				if c.Type == xmlquery.TextNode {
+					k++
+					if q, ok := quotable(c.Data); ok && r.Chance(0.5) {
+						return fmt.Sprintf("text()[%d]=%s", k, q), true
+					}
+				}
+			}
+			if k == 0 {
+				return "not(text())", true
+			}
+			return "text()", true
+		}
 	case 0:
 		if len(x.n.Attr) > 0 {
 			a := x.n.Attr[r.Pick(len(x.n.Attr))]
